@@ -8,6 +8,9 @@
 // oneofs an Option of an enum in a module named after the message.
 // prost's byte-level encode/decode (derive(::prost::Message)) is NOT modelled.
 // Each struct gets a ghost view (Vec -> Seq, Option<Wire> -> Option<view>).
+// derive(::prost::Message) implements Default for every message (all fields at their protobuf
+// default: None / empty / 0): the stand-ins derive Default (no specification of the default value is
+// assumed; it is there so that `o.unwrap_or_default()` and `..Default::default()` type-check).
 // ===========================================================================
 
 // ---- view helpers -------------------------------------------------------------------
@@ -20,8 +23,10 @@ pub open spec fn sview<T: View>(s: Seq<T>) -> Seq<T::V> {
 
 // ---- common.proto (out/common.rs) ------------------------------------------------------
 /// message WireEventLogTypeUser
+#[derive(Default)]
 pub struct WireEventLogTypeUser { pub folder_id: Vec<u8> }
 /// message WireEventLogType { oneof inner { WireEventLogTypeSystem system = 1; WireEventLogTypeUser user = 2; } }
+#[derive(Default)]
 pub struct WireEventLogType { pub inner: Option<wire_event_log_type::Inner> }
 pub mod wire_event_log_type {
     #[allow(unused_imports)] use vstd::prelude::*;
@@ -39,6 +44,7 @@ impl View for WireEventLogType {
     }
 }
 /// message WireSecretPath
+#[derive(Default)]
 pub struct WireSecretPath { pub folder_id: Vec<u8>, pub secret_id: Vec<u8> }
 pub ghost struct WireSecretPathV { pub folder_id: Seq<u8>, pub secret_id: Seq<u8> }
 impl View for WireSecretPath {
@@ -46,12 +52,14 @@ impl View for WireSecretPath {
     open spec fn view(&self) -> WireSecretPathV { WireSecretPathV { folder_id: self.folder_id@, secret_id: self.secret_id@ } }
 }
 /// message WireCommitHash
+#[derive(Default)]
 pub struct WireCommitHash { pub hash: Vec<u8> }
 impl View for WireCommitHash {
     type V = Seq<u8>;
     open spec fn view(&self) -> Seq<u8> { self.hash@ }
 }
 /// message WireCommitProof
+#[derive(Default)]
 pub struct WireCommitProof { pub root: Option<WireCommitHash>, pub proof: Vec<u8>, pub length: u64, pub indices: Vec<u64> }
 pub ghost struct WireCommitProofV { pub root: Option<Seq<u8>>, pub proof: Seq<u8>, pub length: u64, pub indices: Seq<u64> }
 impl View for WireCommitProof {
@@ -61,6 +69,7 @@ impl View for WireCommitProof {
     }
 }
 /// message WireCommitState
+#[derive(Default)]
 pub struct WireCommitState { pub hash: Option<WireCommitHash>, pub proof: Option<WireCommitProof> }
 pub ghost struct WireCommitStateV { pub hash: Option<Seq<u8>>, pub proof: Option<WireCommitProofV> }
 impl View for WireCommitState {
@@ -68,7 +77,7 @@ impl View for WireCommitState {
     open spec fn view(&self) -> WireCommitStateV { WireCommitStateV { hash: oview(self.hash), proof: oview(self.proof) } }
 }
 /// message WireUtcDateTime
-#[derive(Clone, Copy)]
+#[derive(Default, Clone, Copy)]
 pub struct WireUtcDateTime { pub seconds: i64, pub nanos: u32 }
 pub ghost struct WireUtcDateTimeV { pub seconds: i64, pub nanos: u32 }
 impl View for WireUtcDateTime {
@@ -76,6 +85,7 @@ impl View for WireUtcDateTime {
     open spec fn view(&self) -> WireUtcDateTimeV { WireUtcDateTimeV { seconds: self.seconds, nanos: self.nanos } }
 }
 /// message WireEventRecord
+#[derive(Default)]
 pub struct WireEventRecord { pub time: Option<WireUtcDateTime>, pub last_commit: Option<WireCommitHash>, pub commit: Option<WireCommitHash>, pub event: Vec<u8> }
 pub ghost struct WireEventRecordV { pub time: Option<WireUtcDateTimeV>, pub last_commit: Option<Seq<u8>>, pub commit: Option<Seq<u8>>, pub event: Seq<u8> }
 impl View for WireEventRecord {
@@ -85,8 +95,11 @@ impl View for WireEventRecord {
     }
 }
 /// message WireCheckedPatchSuccess / WireCheckedPatchConflict / WireCheckedPatch { oneof inner }
+#[derive(Default)]
 pub struct WireCheckedPatchSuccess { pub proof: Option<WireCommitProof> }
+#[derive(Default)]
 pub struct WireCheckedPatchConflict { pub head: Option<WireCommitProof>, pub contains: Option<WireCommitProof> }
+#[derive(Default)]
 pub struct WireCheckedPatch { pub inner: Option<wire_checked_patch::Inner> }
 pub mod wire_checked_patch {
     #[allow(unused_imports)] use vstd::prelude::*;
@@ -110,6 +123,7 @@ impl View for WireCheckedPatch {
 
 // ---- scan.proto (out/scan.rs) ------------------------------------------------------------
 /// message WireScanRequest
+#[derive(Default)]
 pub struct WireScanRequest { pub log_type: Option<WireEventLogType>, pub limit: Option<u32>, pub offset: u64 }
 pub ghost struct WireScanRequestV { pub log_type: Option<WireEventLogTypeV>, pub limit: Option<u32>, pub offset: u64 }
 impl View for WireScanRequest {
@@ -124,6 +138,7 @@ impl WireScanRequest {
     { match self.limit { Some(v) => v, None => 0u32 } }
 }
 /// message WireScanResponse
+#[derive(Default)]
 pub struct WireScanResponse { pub first_proof: Option<WireCommitProof>, pub proofs: Vec<WireCommitProof>, pub offset: u64 }
 pub ghost struct WireScanResponseV { pub first_proof: Option<WireCommitProofV>, pub proofs: Seq<WireCommitProofV>, pub offset: u64 }
 impl View for WireScanResponse {
@@ -132,6 +147,7 @@ impl View for WireScanResponse {
 }
 // ---- diff.proto (out/diff.rs) ------------------------------------------------------------
 /// message WireDiffRequest
+#[derive(Default)]
 pub struct WireDiffRequest { pub log_type: Option<WireEventLogType>, pub from_hash: Option<WireCommitHash> }
 pub ghost struct WireDiffRequestV { pub log_type: Option<WireEventLogTypeV>, pub from_hash: Option<Seq<u8>> }
 impl View for WireDiffRequest {
@@ -139,6 +155,7 @@ impl View for WireDiffRequest {
     open spec fn view(&self) -> WireDiffRequestV { WireDiffRequestV { log_type: oview(self.log_type), from_hash: oview(self.from_hash) } }
 }
 /// message WireDiffResponse
+#[derive(Default)]
 pub struct WireDiffResponse { pub patch: Vec<WireEventRecord>, pub checkpoint: Option<WireCommitProof> }
 pub ghost struct WireDiffResponseV { pub patch: Seq<WireEventRecordV>, pub checkpoint: Option<WireCommitProofV> }
 impl View for WireDiffResponse {
@@ -147,6 +164,7 @@ impl View for WireDiffResponse {
 }
 // ---- patch.proto (out/patch.rs) ------------------------------------------------------------
 /// message WirePatchRequest
+#[derive(Default)]
 pub struct WirePatchRequest { pub log_type: Option<WireEventLogType>, pub commit: Option<WireCommitHash>, pub proof: Option<WireCommitProof>, pub patch: Vec<WireEventRecord> }
 pub ghost struct WirePatchRequestV { pub log_type: Option<WireEventLogTypeV>, pub commit: Option<Seq<u8>>, pub proof: Option<WireCommitProofV>, pub patch: Seq<WireEventRecordV> }
 impl View for WirePatchRequest {
@@ -156,6 +174,7 @@ impl View for WirePatchRequest {
     }
 }
 /// message WirePatchResponse
+#[derive(Default)]
 pub struct WirePatchResponse { pub checked_patch: Option<WireCheckedPatch> }
 pub ghost struct WirePatchResponseV { pub checked_patch: Option<WireCheckedPatchV> }
 impl View for WirePatchResponse {
@@ -165,6 +184,7 @@ impl View for WirePatchResponse {
 
 // ---- files.proto (out/files.rs) ------------------------------------------------------------
 /// message WireExternalFile
+#[derive(Default)]
 pub struct WireExternalFile { pub folder_id: Vec<u8>, pub secret_id: Vec<u8>, pub file_name: Vec<u8> }
 pub ghost struct WireExternalFileV { pub folder_id: Seq<u8>, pub secret_id: Seq<u8>, pub file_name: Seq<u8> }
 impl View for WireExternalFile {
@@ -172,6 +192,7 @@ impl View for WireExternalFile {
     open spec fn view(&self) -> WireExternalFileV { WireExternalFileV { folder_id: self.folder_id@, secret_id: self.secret_id@, file_name: self.file_name@ } }
 }
 /// message WireFileSet
+#[derive(Default)]
 pub struct WireFileSet { pub files: Vec<WireExternalFile> }
 pub ghost struct WireFileSetV { pub files: Seq<WireExternalFileV> }
 impl View for WireFileSet {
@@ -179,6 +200,7 @@ impl View for WireFileSet {
     open spec fn view(&self) -> WireFileSetV { WireFileSetV { files: sview(self.files@) } }
 }
 /// message WireFileTransfersSet
+#[derive(Default)]
 pub struct WireFileTransfersSet { pub uploads: Option<WireFileSet>, pub downloads: Option<WireFileSet> }
 pub ghost struct WireFileTransfersSetV { pub uploads: Option<WireFileSetV>, pub downloads: Option<WireFileSetV> }
 impl View for WireFileTransfersSet {
@@ -188,7 +210,9 @@ impl View for WireFileTransfersSet {
 
 // ---- sync.proto (out/sync.rs) ------------------------------------------------------------
 /// message Contains / WireComparison { oneof inner { bool equal = 1; Contains contains = 2; bool unknown = 3; } }
+#[derive(Default)]
 pub struct Contains { pub indices: Vec<u64> }
+#[derive(Default)]
 pub struct WireComparison { pub inner: Option<wire_comparison::Inner> }
 pub mod wire_comparison {
     #[allow(unused_imports)] use vstd::prelude::*;
@@ -207,6 +231,7 @@ impl View for WireComparison {
     }
 }
 /// message WirePatch
+#[derive(Default)]
 pub struct WirePatch { pub records: Vec<WireEventRecord> }
 pub ghost struct WirePatchV { pub records: Seq<WireEventRecordV> }
 impl View for WirePatch {
@@ -214,6 +239,7 @@ impl View for WirePatch {
     open spec fn view(&self) -> WirePatchV { WirePatchV { records: sview(self.records@) } }
 }
 /// message WireDiff
+#[derive(Default)]
 pub struct WireDiff { pub last_commit: Option<WireCommitHash>, pub patch: Option<WirePatch>, pub checkpoint: Option<WireCommitProof> }
 pub ghost struct WireDiffV { pub last_commit: Option<Seq<u8>>, pub patch: Option<WirePatchV>, pub checkpoint: Option<WireCommitProofV> }
 impl View for WireDiff {
@@ -221,9 +247,13 @@ impl View for WireDiff {
     open spec fn view(&self) -> WireDiffV { WireDiffV { last_commit: oview(self.last_commit), patch: oview(self.patch), checkpoint: oview(self.checkpoint) } }
 }
 /// message WireTrackedAccountChange { oneof inner { FolderCreated = 1; FolderUpdated = 2; FolderDeleted = 3 } }
+#[derive(Default)]
 pub struct WireTrackedAccountFolderCreated { pub folder_id: Vec<u8> }
+#[derive(Default)]
 pub struct WireTrackedAccountFolderUpdated { pub folder_id: Vec<u8> }
+#[derive(Default)]
 pub struct WireTrackedAccountFolderDeleted { pub folder_id: Vec<u8> }
+#[derive(Default)]
 pub struct WireTrackedAccountChange { pub inner: Option<wire_tracked_account_change::Inner> }
 pub mod wire_tracked_account_change {
     #[allow(unused_imports)] use vstd::prelude::*;
@@ -246,8 +276,11 @@ impl View for WireTrackedAccountChange {
     }
 }
 /// message WireTrackedDeviceChange { oneof inner { Trusted = 1; Revoked = 2 } }
+#[derive(Default)]
 pub struct WireTrackedDeviceChangeTrusted { pub device_public_key: Vec<u8> }
+#[derive(Default)]
 pub struct WireTrackedDeviceChangeRevoked { pub device_public_key: Vec<u8> }
+#[derive(Default)]
 pub struct WireTrackedDeviceChange { pub inner: Option<wire_tracked_device_change::Inner> }
 pub mod wire_tracked_device_change {
     #[allow(unused_imports)] use vstd::prelude::*;
@@ -265,9 +298,13 @@ impl View for WireTrackedDeviceChange {
     }
 }
 /// message WireTrackedFileChange { oneof inner { Created = 1; Moved = 2; Deleted = 3 } }
+#[derive(Default)]
 pub struct WireTrackedFileCreated { pub owner: Option<WireSecretPath>, pub file_name: Vec<u8> }
+#[derive(Default)]
 pub struct WireTrackedFileMoved { pub name: Vec<u8>, pub from: Option<WireSecretPath>, pub dest: Option<WireSecretPath> }
+#[derive(Default)]
 pub struct WireTrackedFileDeleted { pub owner: Option<WireSecretPath>, pub file_name: Vec<u8> }
+#[derive(Default)]
 pub struct WireTrackedFileChange { pub inner: Option<wire_tracked_file_change::Inner> }
 pub mod wire_tracked_file_change {
     #[allow(unused_imports)] use vstd::prelude::*;
@@ -291,9 +328,13 @@ impl View for WireTrackedFileChange {
     }
 }
 /// message WireTrackedFolderChange { oneof inner { Created = 1; Updated = 2; Deleted = 3 } }
+#[derive(Default)]
 pub struct WireTrackedFolderChangeCreated { pub secret_id: Vec<u8> }
+#[derive(Default)]
 pub struct WireTrackedFolderChangeUpdated { pub secret_id: Vec<u8> }
+#[derive(Default)]
 pub struct WireTrackedFolderChangeDeleted { pub secret_id: Vec<u8> }
+#[derive(Default)]
 pub struct WireTrackedFolderChange { pub inner: Option<wire_tracked_folder_change::Inner> }
 pub mod wire_tracked_folder_change {
     #[allow(unused_imports)] use vstd::prelude::*;
@@ -317,12 +358,14 @@ impl View for WireTrackedFolderChange {
 }
 
 /// message WireSyncFolderState / WireSyncStatus
+#[derive(Default)]
 pub struct WireSyncFolderState { pub folder_id: Vec<u8>, pub state: Option<WireCommitState> }
 pub ghost struct WireSyncFolderStateV { pub folder_id: Seq<u8>, pub state: Option<WireCommitStateV> }
 impl View for WireSyncFolderState {
     type V = WireSyncFolderStateV;
     open spec fn view(&self) -> WireSyncFolderStateV { WireSyncFolderStateV { folder_id: self.folder_id@, state: oview(self.state) } }
 }
+#[derive(Default)]
 pub struct WireSyncStatus {
     pub root: Option<WireCommitHash>, pub identity: Option<WireCommitState>, pub account: Option<WireCommitState>,
     pub device: Option<WireCommitState>, pub files: Option<WireCommitState>, pub folders: Vec<WireSyncFolderState>,
@@ -339,12 +382,14 @@ impl View for WireSyncStatus {
     }
 }
 /// message WireSyncFolderPatch / WireCreateSet
+#[derive(Default)]
 pub struct WireSyncFolderPatch { pub folder_id: Vec<u8>, pub patch: Option<WirePatch> }
 pub ghost struct WireSyncFolderPatchV { pub folder_id: Seq<u8>, pub patch: Option<WirePatchV> }
 impl View for WireSyncFolderPatch {
     type V = WireSyncFolderPatchV;
     open spec fn view(&self) -> WireSyncFolderPatchV { WireSyncFolderPatchV { folder_id: self.folder_id@, patch: oview(self.patch) } }
 }
+#[derive(Default)]
 pub struct WireCreateSet {
     pub identity: Option<WirePatch>, pub account: Option<WirePatch>, pub device: Option<WirePatch>,
     pub files: Option<WirePatch>, pub folders: Vec<WireSyncFolderPatch>,
@@ -361,12 +406,14 @@ impl View for WireCreateSet {
     }
 }
 /// message WireSyncFolderDiff / WireUpdateSet
+#[derive(Default)]
 pub struct WireSyncFolderDiff { pub folder_id: Vec<u8>, pub diff: Option<WireDiff> }
 pub ghost struct WireSyncFolderDiffV { pub folder_id: Seq<u8>, pub diff: Option<WireDiffV> }
 impl View for WireSyncFolderDiff {
     type V = WireSyncFolderDiffV;
     open spec fn view(&self) -> WireSyncFolderDiffV { WireSyncFolderDiffV { folder_id: self.folder_id@, diff: oview(self.diff) } }
 }
+#[derive(Default)]
 pub struct WireUpdateSet {
     pub identity: Option<WireDiff>, pub account: Option<WireDiff>, pub device: Option<WireDiff>,
     pub files: Option<WireDiff>, pub folders: Vec<WireSyncFolderDiff>,
@@ -383,8 +430,11 @@ impl View for WireUpdateSet {
     }
 }
 /// message WireMaybeDiffHasDiff / WireMaybeDiffNeedsCompare / WireMaybeDiff { oneof inner { diff = 1; compare = 2 } }
+#[derive(Default)]
 pub struct WireMaybeDiffHasDiff { pub diff: Option<WireDiff> }
+#[derive(Default)]
 pub struct WireMaybeDiffNeedsCompare { pub compare: Option<WireCommitState> }
+#[derive(Default)]
 pub struct WireMaybeDiff { pub inner: Option<wire_maybe_diff::Inner> }
 pub mod wire_maybe_diff {
     #[allow(unused_imports)] use vstd::prelude::*;
@@ -402,12 +452,14 @@ impl View for WireMaybeDiff {
     }
 }
 /// message WireSyncFolderMaybeDiff / WireSyncDiff
+#[derive(Default)]
 pub struct WireSyncFolderMaybeDiff { pub folder_id: Vec<u8>, pub maybe_diff: Option<WireMaybeDiff> }
 pub ghost struct WireSyncFolderMaybeDiffV { pub folder_id: Seq<u8>, pub maybe_diff: Option<WireMaybeDiffV> }
 impl View for WireSyncFolderMaybeDiff {
     type V = WireSyncFolderMaybeDiffV;
     open spec fn view(&self) -> WireSyncFolderMaybeDiffV { WireSyncFolderMaybeDiffV { folder_id: self.folder_id@, maybe_diff: oview(self.maybe_diff) } }
 }
+#[derive(Default)]
 pub struct WireSyncDiff {
     pub identity: Option<WireMaybeDiff>, pub account: Option<WireMaybeDiff>, pub device: Option<WireMaybeDiff>,
     pub files: Option<WireMaybeDiff>, pub folders: Vec<WireSyncFolderMaybeDiff>,
@@ -424,12 +476,14 @@ impl View for WireSyncDiff {
     }
 }
 /// message WireSyncFolderComparison / WireSyncCompare
+#[derive(Default)]
 pub struct WireSyncFolderComparison { pub folder_id: Vec<u8>, pub compare: Option<WireComparison> }
 pub ghost struct WireSyncFolderComparisonV { pub folder_id: Seq<u8>, pub compare: Option<WireComparisonV> }
 impl View for WireSyncFolderComparison {
     type V = WireSyncFolderComparisonV;
     open spec fn view(&self) -> WireSyncFolderComparisonV { WireSyncFolderComparisonV { folder_id: self.folder_id@, compare: oview(self.compare) } }
 }
+#[derive(Default)]
 pub struct WireSyncCompare {
     pub identity: Option<WireComparison>, pub account: Option<WireComparison>, pub device: Option<WireComparison>,
     pub files: Option<WireComparison>, pub folders: Vec<WireSyncFolderComparison>,
@@ -446,6 +500,7 @@ impl View for WireSyncCompare {
     }
 }
 /// message WireSyncPacket
+#[derive(Default)]
 pub struct WireSyncPacket { pub status: Option<WireSyncStatus>, pub diff: Option<WireSyncDiff>, pub compare: Option<WireSyncCompare> }
 pub ghost struct WireSyncPacketV { pub status: Option<WireSyncStatusV>, pub diff: Option<WireSyncDiffV>, pub compare: Option<WireSyncCompareV> }
 impl View for WireSyncPacket {
@@ -454,12 +509,14 @@ impl View for WireSyncPacket {
 }
 
 /// message WireTrackedUserFolderChange / WireTrackedChanges / WireMergeOutcome
+#[derive(Default)]
 pub struct WireTrackedUserFolderChange { pub folder_id: Vec<u8>, pub changes: Vec<WireTrackedFolderChange> }
 pub ghost struct WireTrackedUserFolderChangeV { pub folder_id: Seq<u8>, pub changes: Seq<WireTrackedFolderChangeV> }
 impl View for WireTrackedUserFolderChange {
     type V = WireTrackedUserFolderChangeV;
     open spec fn view(&self) -> WireTrackedUserFolderChangeV { WireTrackedUserFolderChangeV { folder_id: self.folder_id@, changes: sview(self.changes@) } }
 }
+#[derive(Default)]
 pub struct WireTrackedChanges {
     pub identity: Vec<WireTrackedFolderChange>, pub account: Vec<WireTrackedAccountChange>, pub device: Vec<WireTrackedDeviceChange>,
     pub files: Vec<WireTrackedFileChange>, pub folders: Vec<WireTrackedUserFolderChange>,
@@ -476,6 +533,7 @@ impl View for WireTrackedChanges {
     }
 }
 /// (`tracked` is a Verus keyword: raw identifier, same field)
+#[derive(Default)]
 pub struct WireMergeOutcome { pub changes: u64, pub r#tracked: Option<WireTrackedChanges> }
 pub ghost struct WireMergeOutcomeV { pub changes: u64, pub r#tracked: Option<WireTrackedChangesV> }
 impl View for WireMergeOutcome {
@@ -484,6 +542,7 @@ impl View for WireMergeOutcome {
 }
 // ---- notifications.proto (out/notifications.rs) --------------------------------------------
 /// message WireNetworkChangeEvent
+#[derive(Default)]
 pub struct WireNetworkChangeEvent { pub account_id: Vec<u8>, pub connection_id: String, pub root: Option<WireCommitHash>, pub outcome: Option<WireMergeOutcome> }
 pub ghost struct WireNetworkChangeEventV { pub account_id: Seq<u8>, pub connection_id: Seq<char>, pub root: Option<Seq<u8>>, pub outcome: Option<WireMergeOutcomeV> }
 impl View for WireNetworkChangeEvent {
